@@ -14,6 +14,7 @@ import (
 	"encoding/binary"
 	"encoding/hex"
 	"fmt"
+	"io"
 	"math/rand"
 	"net"
 	"os"
@@ -824,6 +825,137 @@ func (c *c10) addrBlobMutations(enc []byte, addrs []net.Addr) {
 	}
 }
 
+// ---- record decoder probes ----------------------------------------------------
+
+// every type of the package with a `Record() tlv.Record` method.  via=1: the
+// decoder delegates to tlv.DBigSize.
+type c10prod struct {
+	name string
+	via  int
+	mk   func() tlv.RecordProducer
+}
+
+var c10producers = []c10prod{
+	{"BlindedPath", 0, func() tlv.RecordProducer { return &BlindedPath{} }},
+	{"BlindedPaths", 0, func() tlv.RecordProducer { return &BlindedPaths{} }},
+	{"ChannelID", 0, func() tlv.RecordProducer { return &ChannelID{} }},
+	{"DynHeight", 0, func() tlv.RecordProducer { return new(DynHeight) }},
+	{"ChannelType", 0, func() tlv.RecordProducer { return (*ChannelType)(NewRawFeatureVector()) }},
+	{"ChanUpdateDisableFlags", 0, func() tlv.RecordProducer { return new(ChanUpdateDisableFlags) }},
+	{"TrueBoolean", 0, func() tlv.RecordProducer { return &TrueBoolean{} }},
+	{"DNSAddress", 0, func() tlv.RecordProducer { return &DNSAddress{} }},
+	{"RawFeatureVector", 0, func() tlv.RecordProducer { return NewRawFeatureVector() }},
+	{"FeatureVector", 0, func() tlv.RecordProducer { return NewFeatureVector(NewRawFeatureVector(), nil) }},
+	{"LocalNoncesData", 0, func() tlv.RecordProducer { return &LocalNoncesData{} }},
+	{"MilliSatoshi", 1, func() tlv.RecordProducer { return new(MilliSatoshi) }},
+	{"Musig2Nonce", 0, func() tlv.RecordProducer { return &Musig2Nonce{} }},
+	{"NodeAlias2", 0, func() tlv.RecordProducer { return new(NodeAlias2) }},
+	{"Color", 0, func() tlv.RecordProducer { return &Color{} }},
+	{"IPV4Addrs", 0, func() tlv.RecordProducer { return new(IPV4Addrs) }},
+	{"IPV6Addrs", 0, func() tlv.RecordProducer { return new(IPV6Addrs) }},
+	{"TorV3Addrs", 0, func() tlv.RecordProducer { return new(TorV3Addrs) }},
+	{"OutPoint", 0, func() tlv.RecordProducer { return &OutPoint{} }},
+	{"PartialSig", 0, func() tlv.RecordProducer { return &PartialSig{} }},
+	{"PartialSigWithNonce", 0, func() tlv.RecordProducer { return &PartialSigWithNonce{} }},
+	{"QueryOptions", 0, func() tlv.RecordProducer { return (*QueryOptions)(NewRawFeatureVector()) }},
+	{"ShortChannelID", 0, func() tlv.RecordProducer { return &ShortChannelID{} }},
+	{"Sig", 0, func() tlv.RecordProducer { return &Sig{} }},
+	{"Timestamps", 0, func() tlv.RecordProducer { return new(Timestamps) }},
+	{"DeliveryAddress", 0, func() tlv.RecordProducer { return new(DeliveryAddress) }},
+	{"Fee", 0, func() tlv.RecordProducer { return &Fee{} }},
+	{"LeaseExpiry", 0, func() tlv.RecordProducer { return new(LeaseExpiry) }},
+}
+
+type c10cr struct {
+	r *bytes.Reader
+	n int
+}
+
+func (c *c10cr) Read(p []byte) (int, error) {
+	k, err := c.r.Read(p)
+	c.n += k
+	return k, err
+}
+
+var _ io.Reader = (*c10cr)(nil)
+
+// probe: one record decoder called with declared length l on a reader that
+// holds more bytes; reports the bytes consumed.  tlv.Stream.decode trusts the
+// decoder to consume exactly l.  Returns (accepted, consumed).
+func (c *c10) probe(p c10prod, in []byte, l uint64, emit bool) (bool, int) {
+	ok, used, res := false, 0, ""
+	func() {
+		defer func() {
+			if r := recover(); r != nil {
+				res = "panic"
+			}
+		}()
+		rec := p.mk().Record()
+		cr := &c10cr{r: bytes.NewReader(in)}
+		err := rec.Decode(cr, l)
+		used = cr.n
+		if err != nil {
+			res = fmt.Sprintf("err used=%d", cr.n)
+			return
+		}
+		ok = true
+		res = fmt.Sprintf("ok used=%d", cr.n)
+	}()
+	if emit {
+		c.caseStart("probe", 0)
+		c.pf("probe lnwire_%s via=%d l=%d %s => %s", p.name, p.via, l, c10hx(in), res)
+		c.caseEnd()
+	}
+	return ok, used
+}
+
+// probeAround: sample is (believed to be) a value of p; declared lengths
+// around its true length, with surplus bytes available on the reader.
+func (c *c10) probeAround(p c10prod, sample []byte) {
+	in := append(append([]byte{}, sample...), c.bytes(12)...)
+	n := uint64(len(sample))
+	for _, l := range []uint64{n, n + 1, n + 2, n + 8, 0} {
+		c.probe(p, in, l, true)
+	}
+	if n > 0 {
+		c.probe(p, in, n-1, true)
+	}
+}
+
+func (c *c10) probes(harvest [][]byte, thorough bool) {
+	for _, p := range c10producers {
+		// (a) the zero value's own encoding
+		func() {
+			defer func() { _ = recover() }()
+			var b bytes.Buffer
+			rec := p.mk().Record()
+			if err := rec.Encode(&b); err == nil {
+				c.probeAround(p, b.Bytes())
+			}
+		}()
+		// (b) record values harvested from generated messages that this
+		// decoder accepts in full
+		hits := 0
+		for _, v := range harvest {
+			if hits >= 4 && !thorough {
+				break
+			}
+			if ok, used := c.probe(p, v, uint64(len(v)), false); ok && used == len(v) && len(v) > 0 {
+				hits++
+				c.probeAround(p, v)
+			}
+		}
+		// (c) random bytes of typical sizes
+		for _, n := range []int{0, 1, 2, 3, 4, 8, 9, 12, 32, 33, 34, 64, 66, 98} {
+			in := c.bytes(n + 8)
+			c.probe(p, in, uint64(n), true)
+			if thorough {
+				c.probe(p, in, uint64(n+1), true)
+			}
+		}
+	}
+}
+
 // sizeBoundary: pad a valid encoding up to the 65535 limit with one unknown
 // record / raw bytes so that the total hits 65533..65535 exactly.
 func (c *c10) sizeBoundary(enc []byte, thorough bool) {
@@ -881,6 +1013,8 @@ func TestVerifC10(t *testing.T) {
 		nGen, nMutated, nContent = 250, 80, 60
 	}
 
+	var harvest [][]byte
+	seenVal := map[string]bool{}
 	for ti, mt := range types {
 		mt := mt
 		gen := rapid.Custom(func(rt *rapid.T) Message {
@@ -951,6 +1085,15 @@ func TestVerifC10(t *testing.T) {
 			if i >= nContent {
 				break
 			}
+			for _, off := range c10tailOffsets(enc) {
+				rs, _ := c10parseTail(enc[off:])
+				for _, r := range rs {
+					if k := string(r.v); !seenVal[k] && len(r.v) <= 2048 && len(harvest) < 400 {
+						seenVal[k] = true
+						harvest = append(harvest, r.v)
+					}
+				}
+			}
 			c.tlvContent(enc, thorough)
 			c.blobContent(enc, thorough)
 		}
@@ -1006,6 +1149,9 @@ func TestVerifC10(t *testing.T) {
 			}
 		}
 	}
+	// every record decoder of the package: bytes consumed == declared length
+	c.probes(harvest, thorough)
+
 	// values at the 65535-byte limit: body of exactly MaxMsgBody must be
 	// written and read back, one byte more must be refused by WriteMessage.
 	{
